@@ -34,8 +34,9 @@ def battery(quick=True):
         k[0] += 1
         return f"{tmp}/cat{k[0]}"
 
-    def create(lib, path, mode, chunksize, max_workers):
-        kw = dict(ra_name="ra", dec_name="dec", weight_name="w", redshift_name="z", chunksize=chunksize, overwrite=True, max_workers=max_workers)
+    def create(lib, path, mode, chunksize, max_workers, progress=False):
+        kw = dict(ra_name="ra", dec_name="dec", weight_name="w", redshift_name="z", chunksize=chunksize, overwrite=True, max_workers=max_workers,
+                  progress=progress)
         if mode == "ids":
             kw["patch_name"] = "pid"
         else:
@@ -82,19 +83,42 @@ def battery(quick=True):
                         if r is True and any(same(res[0][1], res[q][1]) is not True for q in res):
                             r = "the loaded catalog differs between ranks"
                         out.append((name, r is True, "" if r is True else f"root result differs from the single-process run: {r}"))
+        # the same with the progress display switched on: it must not change what any rank does
+        import contextlib
+        import io as _io
+        import sys as _sys
+        _lg = _sys.modules.get(Y.__name__ + ".utils.logging")
+        if _lg is not None and not getattr(_lg.ProgressPrinter, "_vc_silenced", False):
+            _orig_init = _lg.ProgressPrinter.__init__
+            _lg.ProgressPrinter.__init__ = lambda self, num_items, stream, _o=_orig_init: _o(self, num_items, _io.StringIO())   # display sink only
+            _lg.ProgressPrinter._vc_silenced = True
+        for size, sync in itertools.product((3,) if quick else (2, 3, 4), (False, True)):
+            path = target()
+
+            def main_p(rank, path=path):
+                cat = create(Y, path, "centres", 64, None, progress=True)
+                return summary(cat), summary(Y.Catalog(path))
+            with contextlib.redirect_stderr(_io.StringIO()), contextlib.redirect_stdout(_io.StringIO()):
+                status, res, err, world = mpi_sim.run_world(size, main_p, sync=sync, seed=0, timeout=60)
+            name = f"create+load[size={size},centres,chunk=64,progress display on,{'synchronous' if sync else 'eager'}]"
+            if status != "ok":
+                out.append((name, False, f"{status}: {dict(list(err.items())[:2])}"))
+                continue
+            r = same(refs["centres"], res[0][0])
+            out.append((name, r is True, "" if r is True else f"root result differs from the single-process run: {r}"))
         # measurements under MPI
         cfg_kw = dict(rmin=500.0, rmax=5000.0, zmin=0.1, zmax=1.0, num_bins=3)
         ref_cat, unk_cat, rnd_cat = (create(yaw, target(), "centres", 400, 1) for _ in range(3))
         ref_cf = yaw.crosscorrelate(yaw.Configuration.create(**cfg_kw), ref_cat, unk_cat, ref_rand=rnd_cat, max_workers=1)[0]
         ref_hist = yaw.HistData.from_catalog(ref_cat, yaw.Configuration.create(**cfg_kw), max_workers=1)
-        for size, sync in itertools.product((2, 3) if quick else (2, 3, 4), (False, True)):
+        for size, sync, prog in [(a, b, False) for a, b in itertools.product((2, 3) if quick else (2, 3, 4), (False, True))] + [(3, False, True)]:
             paths = (target(), target(), target())
 
-            def main2(rank, paths=paths):
+            def main2(rank, paths=paths, prog=prog):
                 cat, unk, rnd = (create(Y, p, "centres", 400, None) for p in paths)
                 cfg = Y.Configuration.create(**cfg_kw)
-                cf = Y.crosscorrelate(cfg, cat, unk, ref_rand=rnd)[0]
-                hist = Y.HistData.from_catalog(cat, cfg)
+                cf = Y.crosscorrelate(cfg, cat, unk, ref_rand=rnd, progress=prog)[0]
+                hist = Y.HistData.from_catalog(cat, cfg, progress=prog)
                 # result I/O: the root writes, everybody reads back through a broadcast
                 base = paths[0] + "_io"
                 cf.to_file(base + ".hdf")
@@ -107,8 +131,9 @@ def battery(quick=True):
                 # only the root's measurement is meaningful; what every rank reads back must be the root's result
                 io = (cf2.dd.counts.counts, cf2.rd.counts.counts, bool(cfg2 == cfg), cd2.data, cd2.samples.shape, cd.data if rank == 0 else None)
                 return cf.dd.counts.counts, cf.rd.counts.counts, cf.dd.sum_weights.sum_weights1, hist.data, hist.samples, io
-            status, res, err, world = mpi_sim.run_world(size, main2, sync=sync, seed=1, timeout=120)
-            name = f"trees+crosscorrelate+histogram+result_io[size={size},{'synchronous' if sync else 'eager'}]"
+            with contextlib.redirect_stderr(_io.StringIO()), contextlib.redirect_stdout(_io.StringIO()):
+                status, res, err, world = mpi_sim.run_world(size, main2, sync=sync, seed=1, timeout=120)
+            name = f"trees+crosscorrelate+histogram+result_io[size={size},{'synchronous' if sync else 'eager'}{',progress display on' if prog else ''}]"
             if status != "ok":
                 out.append((name, False, f"{status}: {dict(list(err.items())[:2])}"))
                 continue
